@@ -21,7 +21,7 @@ from rtmon.props import _iter
 LEVEL = "exploration"
 NEEDS_RUST = True
 WORKERS = 14
-CASE_TIMEOUT = 420
+CASE_TIMEOUT = 150     # a case takes seconds; an undecidable stall (DESIGN §4 (iv)/(v)) is re-run once with 1.5x
 QUIESCENCE_SCOPE = "process"   # helpers are polling feeders only
 QUIESCENCE_AFTER = 25.0
 REQUIRED_OBS = ["streams", "epoch_checks", "periodicity_checks", "rust_epoch_permutations", "interleaved_stream_pairs",
